@@ -111,7 +111,7 @@ def classify(inst, parsed, rc, prop):
         out["n_checks"] += 1
         if r["tags"]:
             out["n_tagged"] += 1
-            if prop in r["tags"]:
+            if prop in r["tags"] or "FR" in r["tags"]:
                 out["n_tagged_prop"] += 1
         if r["status"] == "SUCCESS":
             out["n_success"] += 1
